@@ -12,12 +12,12 @@ Open Scope Z_scope.
 Ltac Zify.zify_post_hook ::= Z.to_euclidean_division_equations.
 
 Lemma to_u32_ok x s : -2147483648 <= x < 4294967296 ->
-  to_u32 (PI x) s = Ok (PI (x mod 4294967296), s).
+  lift (to_u32 (PI x)) s = Ok (PI (x mod 4294967296), s).
 Proof.
-  intros H. unfold to_u32. msimpl.
+  intros H. unfold lift, to_u32, rret, rraise. msimpl.
   destruct (x >=? 4294967296) eqn:E1; [lia|].
   destruct (x <? -2147483648) eqn:E2; [lia|]. cbn [negb].
-  destruct (x <? 0) eqn:E3; cbn [negb]; unfold ret; st_eq.
+  destruct (x <? 0) eqn:E3; cbn [negb]; st_eq.
 Qed.
 
 Lemma high16 p : Z.shiftr (Z.land p 4294901760) 16 = (p / 65536) mod 65536.
